@@ -65,7 +65,7 @@ PORTFOLIO_CAP = 3
 _portfolio = {"n": 0}
 
 
-def discharge(pc, goal, timeout_ms=10000):
+def discharge(pc, goal, timeout_ms=15000):
     """valid(pc => goal)?  returns (status, backend, seconds, model|None)"""
     t0 = time.time()
     if goal is True:
